@@ -48,7 +48,7 @@ static struct cat_variable (*vars)[MAXVAR];
 static struct cat_command_group *groups;
 static struct cat_command_group **gptr;
 static char *gname[MAXGRP];
-static int ngrp, gstart[MAXGRP + 1];
+static int ngrp, gstart[MAXGRP + 1], galias[MAXGRP];
 static struct cat_descriptor desc;
 static struct cat_object *at;
 static size_t at_size;
@@ -755,10 +755,20 @@ void w_group(const uint8_t *name, size_t nlen, int has_name, int disable)
         if (ngrp >= MAXGRP)
                 return;
         gstart[ngrp] = ncmd;
+        galias[ngrp] = -1;
         groups[ngrp].disable = disable ? true : false;
         gname[ngrp] = has_name ? (char *)dupbytes(name, nlen) : NULL;
         groups[ngrp].name = gname[ngrp];
         ngrp++;
+}
+
+/* a group that registers the command array of an earlier (own-array) group a second time */
+void w_group_alias(const uint8_t *name, size_t nlen, int has_name, int disable, int src)
+{
+        if (ngrp >= MAXGRP || src < 0 || src >= ngrp || galias[src] >= 0)
+                return;
+        w_group(name, nlen, has_name, disable);
+        galias[ngrp - 1] = src;
 }
 
 void w_cmd(const uint8_t *name, size_t nlen, const uint8_t *d, size_t dlen, int has_desc,
@@ -994,6 +1004,10 @@ void w_run(long budget, long stall_n)
         for (g = 0; g < ngrp; g++) {
                 groups[g].cmd = &cmds[gstart[g]];
                 groups[g].cmd_num = (size_t)(gstart[g + 1] - gstart[g]);
+                if (galias[g] >= 0) {
+                        groups[g].cmd = groups[galias[g]].cmd;
+                        groups[g].cmd_num = groups[galias[g]].cmd_num;
+                }
                 gptr[g] = &groups[g];
         }
         memset(&desc, 0, sizeof desc);
@@ -1200,6 +1214,13 @@ int main(void)
                         uint8_t *b;
                         size_t n = unhex(nm, &b);
                         w_group(b, n, strcmp(nm, "~") != 0, (int)dis);
+                        free(b);
+                } else if (!strcmp(op, "GALIAS")) {
+                        char *nm = next_tok(&p);
+                        long dis = tok_long(&p), src = tok_long(&p);
+                        uint8_t *b;
+                        size_t n = unhex(nm, &b);
+                        w_group_alias(b, n, strcmp(nm, "~") != 0, (int)dis, (int)src);
                         free(b);
                 } else if (!strcmp(op, "CMD")) {
                         char *nm = next_tok(&p), *ds = next_tok(&p);
